@@ -1,6 +1,7 @@
 import Holpy.C16.SimplexModel
 import Holpy.C16.SimplexInv
 import Holpy.C16.SimplexCheck3
+import Holpy.C16.SimplexHandle
 /-
 C16 — property theorems about the model of `prover/simplex.py` (`Simplex`).  The model
 (`SimplexModel.lean`) is tied to the code by the step-by-step correspondence stream of
@@ -84,5 +85,39 @@ example : Inv exampleSat := by
     have hx0 : x ≠ 0 := by rintro rfl; revert hx; decide
     simp [InB, exampleSat, exampleState, emptyState, setQ, hx0]
   · intro x l u hl hu; simp [exampleSat, exampleState, emptyState] at hu
+
+/-- `Simplex.handle_assertion()` running through all atoms (every `check()` answered SAT): the final
+`mapping` satisfies the row equations, every bound, hence every asserted atom `x ≥ c` / `x ≤ c`;
+the rows still have the solutions of the initial tableau. -/
+theorem handle_assertion_sat_sound (fuel : Nat) (s s' : SState) (atoms : List Atom) (k : Nat) (tr tr' : List SState)
+    (hinv : Inv s) (hall : ∀ x, InB s s.mapping x) (h : handleAssertion fuel s atoms k tr = (.sat s', tr')) :
+    RowsHold s'.rows s'.mapping ∧ (∀ w, RowsHold s'.rows w ↔ RowsHold s.rows w) ∧
+      (∀ x, InB s s'.mapping x) ∧ ∀ a ∈ atoms, AtomHolds a s'.mapping := by
+  obtain ⟨i, r, hb, hiff⟩ := handle_spec fuel atoms s k tr _ tr' hinv hall h
+  have := (hiff s'.mapping).mp hb
+  exact ⟨i.rows, r, this.1, this.2⟩
+
+/-- `Simplex.handle_assertion()` raising `UNSATException` (a `check()` answered UNSAT) or
+`AssertUpper/LowerException`: no rational assignment satisfies the row equations of the initial
+tableau, the bounds present at the start and the asserted atoms.  Fuel-bounded: the outcome `fuel`
+(`check` did not finish within the fuel) claims nothing. -/
+theorem handle_assertion_unsat_sound (fuel : Nat) (s : SState) (atoms : List Atom) (k : Nat) (tr tr' : List SState)
+    (o : Outcome) (hinv : Inv s) (hall : ∀ x, InB s s.mapping x) (h : handleAssertion fuel s atoms k tr = (o, tr'))
+    (ho : (∃ xi s', o = .unsat xi s') ∨ (∃ j s', o = .conflict j s')) :
+    ¬ ∃ w : Var → ℚ, RowsHold s.rows w ∧ (∀ y, InB s w y) ∧ ∀ a ∈ atoms, AtomHolds a w := by
+  have := handle_spec fuel atoms s k tr o tr' hinv hall h
+  rcases ho with ⟨xi, s', rfl⟩ | ⟨j, s', rfl⟩ <;> exact this
+
+def outcomeTag : Outcome → Nat
+  | .sat _ => 0
+  | .unsat _ _ => 1
+  | .conflict _ _ => 2
+  | .fuel _ => 3
+
+-- s0 ≥ 1 on the example tableau is satisfiable; with x0 ≤ 0, x1 ≤ 0 asserted first it is not (a check() answers UNSAT);
+-- x0 ≥ 1 then x0 ≤ 0 is refused by assert_upper
+example : outcomeTag (handleAssertion 9 exampleState [.geq 0 1] 0 []).1 = 0 ∧
+    outcomeTag (handleAssertion 9 exampleState [.leq 100 0, .leq 101 0, .geq 0 1] 0 []).1 = 1 ∧
+    outcomeTag (handleAssertion 9 exampleState [.geq 100 1, .leq 100 0] 0 []).1 = 2 := by decide
 
 end Holpy.C16
